@@ -130,7 +130,9 @@ def utility_request(rnd, method=None, n_alts=None, n_crits=None, style=None):
     if method == 'choquetIntegral' and len(crits) > 4:
         crits = crits[:4]
     cids = [c['id'] for c in crits]
-    alts = gen_alternatives(rnd, cids, n=n_alts, style=style)
+    # now and then a large instance (thresholds inside the code: sort algorithms, batching, pre-sized buffers)
+    big = n_alts is None and rnd.random() < 0.06
+    alts = gen_alternatives(rnd, cids, n=(rnd.randint(13, 40) if big else n_alts), style=style)
     add_ranges(rnd, crits, alts, prob=0.2)
     if method == 'choquetIntegral':
         mp = {'weights': choquet_weights(rnd, cids)}
@@ -138,7 +140,7 @@ def utility_request(rnd, method=None, n_alts=None, n_crits=None, style=None):
         mp = {'weights': weights_for(rnd, cids)}
         if method == 'weightedSum' and rnd.random() < 0.2:
             mp['weights']['undeclared'] = 7.0  # superfluous entries are tolerated by weighted sum
-    return {'preferenceFunction': method, 'knownAlternatives': alts, 'choseToMake': gen_chose(rnd, alts),
+    return {'preferenceFunction': method, 'knownAlternatives': alts, 'choseToMake': gen_chose(rnd, alts, all_prob=0.8 if big else 0.5),
             'criteria': crits, 'methodParameters': mp, 'biases': [], 'biasApplyRandomSeed': rnd.randint(0, 1000)}
 
 
@@ -207,8 +209,9 @@ def electre_params(rnd, crits, custom_dist_prob=0.3):
 def electre_request(rnd, n_alts=None, n_crits=None, style=None):
     crits = gen_criteria(rnd, n=n_crits or rnd.choice([1, 2, 2, 3, 4]))
     cids = [c['id'] for c in crits]
-    alts = gen_alternatives(rnd, cids, n=n_alts, style=style or rnd.choice(['posgrid', 'grid', 'posgrid', 'real']))
-    return {'preferenceFunction': 'electreIII', 'knownAlternatives': alts, 'choseToMake': gen_chose(rnd, alts),
+    big = n_alts is None and rnd.random() < 0.04
+    alts = gen_alternatives(rnd, cids, n=(rnd.randint(13, 20) if big else n_alts), style=style or rnd.choice(['posgrid', 'grid', 'posgrid', 'real']))
+    return {'preferenceFunction': 'electreIII', 'knownAlternatives': alts, 'choseToMake': gen_chose(rnd, alts, all_prob=0.8 if big else 0.5),
             'criteria': crits, 'methodParameters': electre_params(rnd, crits), 'biases': [],
             'biasApplyRandomSeed': rnd.randint(0, 1000)}
 
@@ -295,6 +298,25 @@ def heuristic_request(rnd, method=None, n_alts=None, n_crits=None, distinct_weig
         mp['function'], mp['params'] = fn, p
     return {'preferenceFunction': method, 'knownAlternatives': alts, 'choseToMake': chose, 'criteria': crits,
             'methodParameters': mp, 'biases': [], 'biasApplyRandomSeed': rnd.randint(0, 1000)}
+
+
+def large_request(rnd, method=None, lo=16, hi=40):
+    """a valid request with many alternatives, (almost) all of them considered"""
+    method = method or rnd.choice(METHODS)
+    n = rnd.randint(lo, hi if method != 'electreIII' else min(hi, 24))
+    if method in UTILITY:
+        req = utility_request(rnd, method, n_alts=n)
+    elif method == 'electreIII':
+        req = electre_request(rnd, n_alts=n)
+    else:
+        req = heuristic_request(rnd, method, n_alts=n)
+    ids = [a['id'] for a in req['knownAlternatives']]
+    keep = set(req['choseToMake'])
+    cc = (req.get('methodParameters') or {}).get('currentChoice')
+    for i in ids:
+        if i not in keep and i != cc and rnd.random() < 0.9:
+            req['choseToMake'].append(i)
+    return req
 
 
 def any_request(rnd, method=None):
